@@ -216,6 +216,14 @@ func init() {
 	type onceState struct{ done bool }
 	reg("(*sync.Once).Do", func(in *Interp, fn *ssa.Function, args []Value, site ssa.Value) Value {
 		p := args[0].(PtrV)
+		if a, ok := in.side[p].(*onceAsync); ok {
+			if a.done {
+				return nil
+			}
+			a.done = true
+			in.callSync(args[1].(*FuncV), nil)
+			return nil
+		}
 		st, _ := in.side[p].(*onceState)
 		if st == nil {
 			st = &onceState{}
